@@ -43,6 +43,34 @@ def exact_events(ctx, ty, dtype, n):
         for i in range(0, n, 3):
             ev.append({"op": "algadd", "ty": ty, "x": L.dyvec(A.tensor()[i]), "a": L.dyvec(T[i][:L.ADIM[ty]]),
                        "out": L.dyvec(a2.tensor()[i] if isinstance(a2, pp.LieTensor) else a2[i])})
+    # broadcastable batch shapes: every way of writing the retraction must give Exp(a_j) @ X_i for the broadcast pair (i, j),
+    # whichever operand has the larger batch
+    for lsx, lsa in (((), (3,)), ((1,), (4,)), ((3, 1), (1, 2)), ((2,), (2,)), ((2, 3), ()), ((2, 1), (3,)), ((), (2, 2))):
+        nx, na = max(1, int(torch.tensor(lsx).prod()) if lsx else 1), max(1, int(torch.tensor(lsa).prod()) if lsa else 1)
+        Xb = L.mk(ty, [L.rand_elem(rng, ty) for _ in range(nx)], dtype).lview(*lsx) if lsx else L.mk(ty, L.rand_elem(rng, ty), dtype)
+        tvb = [L.rand_alg(rng, ty, pure_trans=True) for _ in range(na)]
+        Tb = torch.tensor(tvb, dtype=dtype).reshape(tuple(lsa) + (L.ADIM[ty],))
+        Tal = pp.LieTensor(Tb, ltype=getattr(pp, L.ALG[ty] + "_type"))
+        out_shape = tuple(torch.broadcast_shapes(tuple(lsx), tuple(lsa)))
+        Xe = Xb.tensor().expand(out_shape + (L.GDIM[ty],)).reshape(-1, L.GDIM[ty])
+        Te = Tb.expand(out_shape + (L.ADIM[ty],)).reshape(-1, L.ADIM[ty])
+        forms = {"retr": lambda: Xb.Retr(Tal), "pp.Retr": lambda: pp.Retr(Xb, Tal), "plus": lambda: Xb + Tb,
+                 "add": lambda: pp.add(Xb, Tb), "method_add": lambda: Xb.add(Tb)}
+        for name, f in forms.items():
+            try:
+                o = f()
+                ok = isinstance(o, pp.LieTensor) and o.ltype == Xb.ltype and tuple(o.shape[:-1]) == out_shape
+                rows = o.tensor().reshape(-1, L.GDIM[ty]) if ok else None
+            except Exception as ex:
+                ev.append({"op": "raise", "ty": ty, "what": ("%s with lshapes %s, %s: %r" % (name, lsx, lsa, ex))[:200]})
+                continue
+            if not ok:
+                ev.append({"op": "raise", "ty": ty, "what": "%s with lshapes %s, %s: result %s %s" % (
+                    name, lsx, lsa, type(o).__name__, tuple(getattr(o, "shape", ())))})
+                continue
+            for i in range(rows.shape[0]):
+                ev.append({"op": "retr", "ty": ty, "x": L.dyvec(Xe[i]), "a": L.dyvec(Te[i]), "out": L.dyvec(rows[i]),
+                           "via": name + "/bcast", "pad": 0})
     return ev
 
 
@@ -219,7 +247,7 @@ def run(ctx):
         for dtype in (torch.float64, torch.float32):
             ev = exact_events(ctx, ty, dtype, 12 if q else 120)
             for e in ev:
-                ctx.cover("E:%s:%s:%s:%s" % (e["op"], ty, e["x"], e["a"]))
+                ctx.cover("E:%s:%s:%s:%s" % (e["op"], ty, e.get("x"), e.get("a")))
             for i in range(0, len(ev), 40):
                 etr.append({"cfg": {"ty": ty, "dtype": str(dtype), "kind": "exact"}, "ev": ev[i:i + 40]})
             nev = num_events(ctx, ty, dtype, 1 if q else 6)
